@@ -69,6 +69,8 @@ let handle id kind fields =
     (match unesc (cs d) with
      | Some o -> Printf.printf "%s\tOK\t%s\n" id (hs o)
      | None -> Printf.printf "%s\tNONE\n" id)
+  | "connect", [n; a; o] ->
+    res_line id (run_connect (cs n) (parse_attrs a) (parse_els o)) (fun (nm, at) -> hs nm ^ "\t" ^ show_attrs at)
   | _ -> Printf.printf "%s\tSKIP\n" id
 
 let () =
